@@ -12,13 +12,17 @@
 (*   CopyRef      a() starts from a copy of the reference array                      *)
 (*   CopyOnHit    compute() returns a copy of the cached array                       *)
 (*   CopyOnStore  compute() stores a copy of the new array                           *)
+(*   KeyHasNf     the cache key of compute() contains the flavour number               *)
+(* TrivialDec = TRUE models LO/NLO with unit matching ratios: the decoupling factor is   *)
+(* exactly one, so the array after the decoupling step holds the same numbers as before  *)
+(* (and would hit the same cache key if the key did not carry nf).                        *)
 EXTENDS Atlas, TLC
 
 CONSTANTS Ms,            \* matching scales (tokens), sorted
           RefPoint,      \* <<scale, nf>> of the reference
           QScales, QNfs, \* queries are drawn from QScales \X QNfs
           MaxQueries, MaxMutations,
-          CopyRef, CopyOnHit, CopyOnStore,
+          CopyRef, CopyOnHit, CopyOnStore, KeyHasNf, TrivialDec,
           Qed, TauTok, TauBelow   \* running QED: segments across the tau mass are split
 
 VARIABLES heap,      \* address -> term
@@ -32,7 +36,7 @@ RefAddr == 0
 Ref == <<"ref">>
 Garbage == <<"garbage">>
 Comp(t, nf, o, tt) == <<"comp", t, nf, o, tt>>
-Dec(t, nf, down) == <<"dec", t, nf, down>>
+Dec(t, nf, down) == IF TrivialDec THEN t ELSE <<"dec", t, nf, down>>
 
 Put(f, k, v) == [x \in (DOMAIN f) \cup {k} |-> IF x = k THEN v ELSE f[x]]
 Fresh(h) == (CHOOSE n \in 0..100 : n \notin DOMAIN h /\ \A m \in DOMAIN h : m < n)
@@ -56,7 +60,7 @@ Pure(q) == LET p == Path(Ms, RefPoint, q) IN PureFrom(Ref, p, 1, IsDownwardPath(
 
 (* one cache-mediated solution of the RGE across (part of) a segment: Couplings.compute *)
 Compute1(st, nf, o, t) ==
-  LET key == <<st.heap[st.cur], nf, o, t>> IN
+  LET key == <<st.heap[st.cur], IF KeyHasNf THEN nf ELSE 0, o, t>> IN
   IF key \in DOMAIN st.cache
   THEN IF CopyOnHit
        THEN LET n == Fresh(st.heap) IN
@@ -122,7 +126,7 @@ Spec == Init /\ [][Next]_vars
 C17_HistoryFree == nq > 0 => last.term = Pure(last.q)
 C17_RefIntact == heap[RefAddr] = Ref
 C17_NoAlias == \A a \in returned : a # RefAddr /\ \A k \in DOMAIN cache : cache[k] # a
-C17_CacheSound == \A k \in DOMAIN cache : heap[cache[k]] = Comp(k[1], k[2], k[3], k[4])
+C17_CacheSound == KeyHasNf => \A k \in DOMAIN cache : heap[cache[k]] = Comp(k[1], k[2], k[3], k[4])
 C17_CacheImmutable == [][\A k \in DOMAIN cache : k \in DOMAIN cache' /\ heap'[cache'[k]] = heap[cache[k]]]_vars
 (* C16: the steps taken are exactly the atlas path: one compute per non-degenerate segment *)
 C16_Steps == nq > 0 =>
